@@ -25,7 +25,7 @@ EXPLANATION = ('Lean theorems about the trie mirror (Gin/SelectorMap.lean) + dif
                'naive set-of-names oracle evaluated on what the implementation returned.')
 
 ALPHA = ['a', 'b', 'c']
-BAD_NAMES = ['', 'a.', '.a', '1a', 'a b', 'a-b', 'a..b', 'a.$', '$']
+BAD_NAMES = ['', 'a.', '.a', '1a', 'a b', 'a-b', 'a..b', 'a.$', '$', 'a.b\n', 'a\n', '\na', 'a\n.b']
 BAD_QUERIES = ['', '.a', 'a.', 'a..b', '$', 'a.$', '$.a', '$.b', '$.c.c', 'zz', 'a.zz']
 
 
@@ -254,7 +254,21 @@ def gen_reported_case(rng):
       binds.append({'op': 'bind', 'scope': rng.choice(['', 'a']), 'sel': reg['_selector'], 'arg': rng.choice(cls),
                     'val': {'ref': [rng.choice([[], ['s']]), tgt['_selector'], rng.random() < 0.3]},
                     '_form': rng.choice(['tuple', 'text']), 'block': False})
-  return {'dom': 'gin', 'ops': ops + binds + [{'op': 'cfgdoc'}], '_order2': binds, '_regops': ops, '_width': [80, 4],
+  # a reference written with a short name that is unique when it is written, and that a later registration makes
+  # ambiguous: the text still has to name its target
+  tail = []
+  all_names = [o['_selector'] for o in ops if o['op'] == 'register']
+  refbinds = [b for b in binds if isinstance(b['val'], dict) and 'ref' in b['val'] and b['_form'] == 'text']
+  if refbinds and rng.random() < 0.5:
+    b = rng.choice(refbinds)
+    tsel = b['val']['ref'][1]
+    bare = tsel.split('.')[-1]
+    if refmodel.suffix_matches(all_names + ['gin.macro', 'gin.constant', 'gin.singleton'], bare) == [tsel]:
+      b['val']['_spelled'] = bare
+      late = G.gen_late_register(rng, 95)
+      late.update(name=bare, module='lm2', _pymodule='lm2', _selector='lm2.' + bare)
+      tail = [late]
+  return {'dom': 'gin', 'ops': ops + binds + tail + [{'op': 'cfgdoc'}], '_order2': binds + tail, '_regops': ops, '_width': [80, 4],
           '_kind': 'reported', '_imports': []}
 
 
@@ -355,7 +369,7 @@ def oracle(case, impl):
     if 'serialise_error' in impl:
       return f'config_str raised {impl["serialise_error"]}'
     names = impl['registered']
-    bound = sorted({(o['scope'], o['sel']) for o in case['_order2']})
+    bound = sorted({(o['scope'], o['sel']) for o in case['_order2'] if o['op'] == 'bind'})
     heads = [sc[0] for sc in impl['out'][-1]['ok']['sections']]
     resolved = []
     for h in heads:
